@@ -124,7 +124,7 @@ var c01Bundles = map[string]c01Bundle{
 	"string-set":    {tag: "h1", decl: "string-set:s content() attr(class)", rules: `@page{@bottom-left{content:string(s,first-except) string(s,last)}}`},
 	"img-data":      {tag: "img", attrs: `src="` + c01PNG + `" width="10" height="10"`, void: true},
 	"img-broken":    {tag: "img", attrs: `src="nowhere.png" alt="alt text"`, void: true},
-	"img-svg":       {tag: "img", attrs: `src="data:image/svg+xml,%3Csvg xmlns='http://www.w3.org/2000/svg' viewBox='0 0 10 10'%3E%3Ccircle r='5'/%3E%3C/svg%3E" style="width:50%"`, void: true},
+	"img-svg":       {tag: "img", attrs: `src="data:image/svg+xml,%3Csvg%20xmlns='http://www.w3.org/2000/svg'%20viewBox='0%200%2010%2010'%3E%3Ccircle%20r='5'/%3E%3C/svg%3E" style="width:50%"`, void: true},
 	"bg-image":      {tag: "div", decl: "background:url(" + c01PNG + ") repeat-x 50% 50% / 3px auto, linear-gradient(to right, red, blue 30%, green) no-repeat;min-height:10px"},
 	"svg-inline":    {tag: "svg", attrs: `width="20" height="20" viewBox="0 0 10 10"`, void: true, inner: `<defs><linearGradient id="g"><stop offset="0" stop-color="red"/><stop offset="1" stop-color="blue"/></linearGradient></defs><rect width="5" height="5" fill="url(#g)"/><path d="M1 1 L5 5 A 2 2 0 0 1 8 8 Z" stroke="black"/><text x="1" y="9">t</text>`},
 	"svg-bad":       {tag: "svg", attrs: `viewBox="0 0 0 0" preserveAspectRatio="x"`, void: true, inner: `<path d="M 1 1 L"/><use href="#self" id="self"/><rect width="-1" height="1e99"/><circle r="nan"/><g clip-path="url(#nope)" mask="url(#self)"><polygon points="1"/></g>`},
@@ -175,7 +175,7 @@ var c01Bundles = map[string]c01Bundle{
 	"clear":         {tag: "div", decl: "clear:both;float:right"},
 	"fontface":      {tag: "div", decl: "font-family:nowhere,weasyprint", rules: `@font-face{font-family:nowhere;src:url(none.woff) format("woff"),local(x)}`},
 	"counter-style": {tag: "li", decl: "display:list-item;list-style:cs2", rules: `@counter-style cs1{system:extends cs2}@counter-style cs2{system:extends cs1;fallback:cs2}@counter-style cs3{system:cyclic;symbols:"*";fallback:cs3;range:1 1}`},
-	"svg-img-ref":   {tag: "img", attrs: `src="data:image/svg+xml,%3Csvg xmlns='http://www.w3.org/2000/svg'%3E%3Cimage href='x.svg'/%3E%3C/svg%3E"`, void: true},
+	"svg-img-ref":   {tag: "img", attrs: `src="data:image/svg+xml,%3Csvg%20xmlns='http://www.w3.org/2000/svg'%3E%3Cimage%20href='x.svg'/%3E%3C/svg%3E"`, void: true},
 	"media":         {tag: "div", rules: `@media print and (min-width:1px){%s{color:red}}@media screen{%s{display:none}}@supports (display:grid){%s{margin:1px}}`},
 	"nested-rule":   {tag: "div", rules: `div{& %s{padding:1px} %s &{margin:1px} @media print{border:1px solid}}`},
 	"attr-hints":    {tag: "table", attrs: `border="2" cellpadding="3" cellspacing="1" width="50%" height="10" align="center" bgcolor="#eee" background="x.png"`},
